@@ -41,6 +41,7 @@ PROPS["C07"] = {
     "assumptions": ["CBMC/Kani translation of Rust MIR is trusted"],
 }
 PROPS["C12"] = {
+    "quick_timeout": 600,
     "functions": ["request::nonce_from_rfc_request", "request::get_supported_version", "RtMessage::from_bytes", "RtMessage::get_field",
                   "Version::wire_bytes"],
     "bounds": "version lists of 0..=6 arbitrary 32-bit words (all 2^(32k) lists per k), SRV absent / 32 arbitrary bytes against an "
@@ -177,7 +178,7 @@ PROPS["C01"] = {
                "path depths above 1; key parsing (hex/base64); responses that fail to parse",
     "models": CLIENT_MODELS,
     "assumptions": ["ed25519-dalek implements RFC 8032", "ring implements SHA-512", "a panic in the client ends the process with a non-zero status and no time printed"],
-    "quick_timeout": 900,
+    "quick_timeout": 600,
 }
 
 PROPS["C03"] = {
@@ -190,7 +191,7 @@ PROPS["C03"] = {
                "server to the same reference verifier)",
     "models": CLIENT_MODELS,
     "assumptions": ["ed25519-dalek implements RFC 8032", "ring implements SHA-512"],
-    "quick_timeout": 900,
+    "quick_timeout": 600,
 }
 
 PROPS["C16"] = {
@@ -207,7 +208,7 @@ PROPS["C16"] = {
                "(formats and parses a socket address; not the subject)",
                "std::env::var stubbed: returns the value the harness assigned to that exact variable name, NotPresent otherwise"],
     "assumptions": ["str::parse::<uN> is exact or fails"],
-    "quick_timeout": 900,
+    "quick_timeout": 600,
 }
 
 NOT_APPLICABLE = {
